@@ -331,7 +331,7 @@ class IndicatorInterp(Interp):
     def sqrt(self, st, node):
         v = self.expr(node.args[0], st)
         if isinstance(v, Num):
-            st.site("sqrt", node, arg=v.f)
+            st.site("sqrt", node, arg=v.f, arg_sign=self.sg(st, v.f))
             return Num(mk_fn("sqrt", v.f))
         return Opaque("sqrt of non-number")
 
